@@ -67,14 +67,6 @@ package iop
 //@ + ghost pt = callarg1
 //@ + ghost res = callresult
 //@ + ghost onrecv = same(callarg0, p.polynomial)
-//@ cut after call evaluate #2
-//@ + ghost pt = callarg1
-//@ + ghost res = callresult
-//@ + ghost onrecv = same(callarg0, p.polynomial)
-//@ cut after call evaluate #3
-//@ + ghost pt = callarg1
-//@ + ghost res = callresult
-//@ + ghost onrecv = same(callarg0, p.polynomial)
 //@ ghost-final base = ite(p.polynomial.Form.Basis == LagrangeCoset, x0 * inv(p.coset), x0)
 //@ ensures[result] result == res && onrecv
 //@ ensures[unshifted] p.shift == 0 ==> pt == base
